@@ -6,6 +6,11 @@ package dhcpv6
 // read-only methods and of option codes are generated from the package's types at check time
 // (zz_verif_generated.go).
 
+import (
+	"net"
+	"time"
+)
+
 // VerifC20Option: the option ParseOption yields for known code #idx and an n-byte symbolic payload;
 // every read-only method of its type, in sequence and twice; ToBytes must stay the same.
 func VerifC20Option(idx, n int) {
@@ -184,4 +189,34 @@ func verifC20MsgReaders(d DHCPv6) {
 	_, _ = d.GetInnerMessage()
 	verifAssert(verifSame(d.ToBytes(), e0), "helpers-leave-encoding-unchanged")
 	keep.check()
+}
+
+// VerifC20Elapsed: an elapsed-time option built from a duration the caller chose (which: 0, 10 ms,
+// 1 s, the largest value the 16-bit field holds, one tick more, 20 min, 3 h) is put into a message;
+// encoding the option, the message and a relay around it, and printing them, leave what the
+// message reports as its elapsed time exactly as the caller set it, and every encoding equals the
+// first one.
+func VerifC20Elapsed(which int) {
+	ds := []time.Duration{0, 10 * time.Millisecond, time.Second, 65535 * 10 * time.Millisecond, 65536 * 10 * time.Millisecond, 20 * time.Minute, 3 * time.Hour}
+	d := ds[which]
+	o := OptElapsedTime(d)
+	m := &Message{MessageType: MessageTypeSolicit}
+	copy(m.TransactionID[:], verifBytes("xid", 3))
+	m.AddOption(o)
+	verifAssert(m.Options.ElapsedTime() == d, "reader-reports-what-was-set")
+	b0 := append([]byte(nil), o.ToBytes()...)
+	verifAssert(m.Options.ElapsedTime() == d, "encoding-leaves-the-option-unchanged")
+	e0 := append([]byte(nil), m.ToBytes()...)
+	verifAssert(m.Options.ElapsedTime() == d, "encoding-leaves-the-option-unchanged")
+	_ = m.Summary()
+	_ = o.String()
+	r, err := EncapsulateRelay(m, MessageTypeRelayForward, net.IPv6zero, net.IPv6zero)
+	if err == nil {
+		_ = r.ToBytes()
+		_ = r.Summary()
+	}
+	verifAssert(m.Options.ElapsedTime() == d, "encoding-leaves-the-option-unchanged")
+	verifAssert(verifSame(o.ToBytes(), b0), "repeated-reads-agree")
+	verifAssert(verifSame(m.ToBytes(), e0), "message-reader-leaves-encoding-unchanged")
+	verifReach("end")
 }
